@@ -17,6 +17,8 @@ structure OScn where
   /-- how many attempts fail in transport before an answer comes back -/
   fails : Nat := 0
   ans : OAns := .st 405 false
+  /-- StreamableClientTransport.strict: a 4xx other than 405 is not tolerated -/
+  strict : Bool := false
   deriving DecidableEq, Repr
 
 structure OOut where
@@ -27,11 +29,11 @@ structure OOut where
   deriving DecidableEq, Repr
 
 /-- what connectStandaloneSSE makes of the first answer that comes back -/
-def openAnswer : OAns → Conn × Bool
+def openAnswer (strict : Bool) : OAns → Conn × Bool
   | .st c sse =>
     if c == Generated.ClientWrite.standaloneNotOffered then (.usable, false)  -- "the server does not offer an SSE stream"
     else if !sse then (.usable, false)                                        -- #736: not an event stream: logged
-    else if decide (400 ≤ c) && decide (c < 500) then (.usable, false)       -- #393,#610 (non-strict): like 405
+    else if decide (400 ≤ c) && decide (c < 500) && !strict then (.usable, false)  -- #393,#610 (non-strict): like 405
     else if decide (200 ≤ c) && decide (c < 300) then (.usable, true)        -- checkResponse passes: handleSSE
     else (.dead, false)                                                       -- checkResponse fails: c.fail
 
@@ -39,7 +41,7 @@ def openAnswer : OAns → Conn × Bool
 def openStandalone (s : OScn) : OOut :=
   if s.fails ≥ s.mr + 1 then { gets := s.mr + 1, conn := .dead, stream := false }  -- every attempt failed: c.fail
   else
-    let r := openAnswer s.ans
+    let r := openAnswer s.strict s.ans
     { gets := s.fails + 1, conn := r.1, stream := r.2 }
 
 /-! ### the property -/
@@ -51,14 +53,14 @@ structure OObs where
   deriving DecidableEq, Repr
 
 /-- the server declines the standalone stream: 405, an answer that is no event stream, or a 4xx -/
-def declined : OAns → Bool
-  | .st c sse => c == Generated.ClientWrite.standaloneNotOffered || !sse || (decide (400 ≤ c) && decide (c < 500))
+def declined (strict : Bool) : OAns → Bool
+  | .st c sse => c == Generated.ClientWrite.standaloneNotOffered || !sse || (decide (400 ≤ c) && decide (c < 500) && !strict)
 
 /-- C09 (bounded retries): the opening is attempted at most maxRetries+1 times, and not again after an answer -/
 def POBound (s : OScn) (o : OObs) : Prop := o.gets ≤ s.mr + 1 ∧ (s.fails < s.mr + 1 → o.gets ≤ s.fails + 1)
 /-- C01 (the connection breaks only for a reason): a server that declines the standalone stream, after transport
 failures within the budget, does not cost the session its connection -/
-def PODeclined (s : OScn) (o : OObs) : Prop := (s.fails < s.mr + 1 ∧ declined s.ans = true) → o.probe ≠ .err
+def PODeclined (s : OScn) (o : OObs) : Prop := (s.fails < s.mr + 1 ∧ declined s.strict s.ans = true) → o.probe ≠ .err
 /-- C09 (an error instead of silence): when every attempt failed the connection is failed, later calls get an error -/
 def POExhausted (s : OScn) (o : OObs) : Prop := s.fails ≥ s.mr + 1 → o.probe ≠ .ok
 
